@@ -83,6 +83,8 @@ def run(ctx):
     for r in wrows:
         if r.get("fails") or r.get("panic") or r.get("hang"):
             continue
+        if r.get("id", 0) >= 100000:
+            continue    # pinned corpus programs (multi-operand / bare wait): checked against their expected output only
         sts = [int(x) for x in re.findall(r"exit (\d+);", r["prog"])]
         waits = [int(x) for x in re.findall(r"wait g(\d+)", r["prog"])]
         got = r["got"].split()
